@@ -57,6 +57,20 @@ func newXOF(a *algo, l uint64, unknown bool, key []byte) (xofI, error) {
 	return xofS{x}, nil
 }
 
+// c06ring keeps the last 8 filled Read buffers (across readers and histories).
+var c06ring retainRing
+
+// c06buf is the ONE reused Write operand: every Write goes through it and it
+// is scribbled over as soon as Write returns (io.Writer: must not retain p).
+var c06buf = make([]byte, 0, 1024)
+
+func c06write(m *mon.M, x xofI, p []byte) {
+	buf := append(c06buf[:0], p...)
+	x.Write(buf)
+	scribble(buf)
+	m.Count("write_operands_scribbled", 1)
+}
+
 // c06reader is one XOF instance in read mode together with its position model.
 type c06reader struct {
 	x        xofI
@@ -79,6 +93,7 @@ type c06hist struct {
 	l       uint64
 	unknown bool
 	key     []byte
+	keyArg  []byte // the slice actually handed to NewXOF (scribbled afterwards)
 	stratum int
 	bad     bool
 }
@@ -168,6 +183,16 @@ func (h *c06hist) read(rd *c06reader, n int) {
 			}
 		}
 	}
+	// the filled buffer is the caller's: later calls (this reader, its
+	// clones, other XOFs) must leave it alone
+	if got > 0 && got <= 512 {
+		c06ring.add(buf[:got], fmt.Sprintf("buffer filled by Read(%d) at pos %d of %s reader %s", n, rd.pos, a.name, rd.id))
+	}
+	if bad := c06ring.verify(); bad != nil {
+		fail("returned-slice-modified-later:"+a.name, map[string]any{"slice": bad.what, "was": mon.Hex(bad.snap), "now": mon.Hex(bad.s)})
+		return
+	}
+	m.Count("retained_read_buffers_verified", 1)
 	newPos := rd.pos + uint64(got)
 	atEnd := !h.unknown && newPos == h.l
 	if err == io.EOF && !atEnd {
@@ -276,7 +301,7 @@ func c06length(a *algo, stratum int, j int64, r *rand.Rand) (l uint64, unknown b
 func TestC06(t *testing.T) {
 	m := mon.New(t, "C06")
 	defer m.Done()
-	m.Rule("history = NewXOF(L or OutputLengthUnknown, key) ; Write* (message 0..300 bytes in 1..3 chunks) ; then Reads on up to 3 readers (original + Clones taken in write mode or at arbitrary read positions, each driven with its own chunk sizes 0..200, {Out-1,Out,Out+1,2Out±1,4Out±1} and, for long outputs, 1000..8000) until every reader has delivered L bytes and then reported io.EOF twice (unknown length: until a target beyond 2^16 bytes for BLAKE2s / 70000 resp. 300 KiB for BLAKE2b); Write-after-Read probed for the documented panic; Reset then a second message. L by stratum: unknown short / unknown long / boundary list {1,31..33,63..65,127..129,255,256,65534, b2b: 65535,65536,70000} / <=300 / <=5000 / large / partial last node / clone+reset focus. Oracle = position model (L, pos) over the BLAKE2X executable spec (h/ref/blake2: root hash with XOF length, node i with node offset i and digest length min(Out, L-i*Out)). One evaluation = one history; distinct = (alg, length class, keyed, #readers, reset).")
+	m.Rule("history = NewXOF(L or OutputLengthUnknown, key) ; Write* (message 0..300 bytes in 1..3 chunks) ; then Reads on up to 3 readers (original + Clones taken in write mode or at arbitrary read positions, each driven with its own chunk sizes 0..200, {Out-1,Out,Out+1,2Out±1,4Out±1} and, for long outputs, 1000..8000) until every reader has delivered L bytes and then reported io.EOF twice (unknown length: until a target beyond 2^16 bytes for BLAKE2s / 70000 resp. 300 KiB for BLAKE2b); Write-after-Read probed for the documented panic; Reset then a second message. L by stratum: unknown short / unknown long / boundary list {1,31..33,63..65,127..129,255,256,65534, b2b: 65535,65536,70000} / <=300 / <=5000 / large / partial last node / clone+reset focus. Caller memory: all Writes go through one reused buffer scribbled (0xA5) after each call, the key slice is scribbled after NewXOF and after Reset, the last 8 filled Read buffers are re-verified after every later Read. Oracle = position model (L, pos) over the BLAKE2X executable spec (h/ref/blake2: root hash with XOF length, node i with node offset i and digest length min(Out, L-i*Out)). One evaluation = one history; distinct = (alg, length class, keyed, #readers, reset).")
 	m.Assume("h/ref/blake2's BLAKE2X layer is validated on the 512 official BLAKE2Xb/BLAKE2Xs known-answer vectors (lengths 1..256, keyed) and the two unknown-length vectors; its compression function is cross-checked against python hashlib in the unit test and in C05. No independent BLAKE2X implementation exists in the image (hashlib rejects fanout=0/depth=0), so node offsets > 3 and L > 256 rest on the spec text alone.")
 	if err := refb2.SelfTest(); err != nil {
 		m.Inconclusive("reference self-test failed: " + err.Error())
@@ -301,7 +326,12 @@ func TestC06(t *testing.T) {
 		case 2:
 			h.key = keyFor(r, 3, a.max)
 		}
-		x, err := newXOF(a, h.l, h.unknown, h.key)
+		h.keyArg = cloneKey(h.key)
+		x, err := newXOF(a, h.l, h.unknown, h.keyArg)
+		if len(h.keyArg) > 0 {
+			scribble(h.keyArg) // NewXOF must have copied the key
+			m.Count("keys_scribbled_after_constructor", 1)
+		}
 		if err != nil {
 			m.Violation("xof-constructor-rejects-valid-length:"+a.name, map[string]any{"L": h.l, "unknown": h.unknown, "keylen": len(h.key), "err": err.Error()})
 			return
@@ -313,7 +343,7 @@ func TestC06(t *testing.T) {
 			cuts = []int{0, cuts[1], len(msg)}
 		}
 		for k := 1; k < len(cuts); k++ {
-			x.Write(msg[cuts[k-1]:cuts[k]])
+			c06write(m, x, msg[cuts[k-1]:cuts[k]])
 		}
 		orig := &c06reader{x: x, msg: msg, id: "orig", target: target}
 		readers := []*c06reader{orig}
@@ -323,11 +353,11 @@ func TestC06(t *testing.T) {
 			c := &c06reader{x: x.clone(), id: "clone@write", related: true, target: target}
 			orig.related = true
 			extraC := mon.Bytes(r, 1+r.IntN(2*a.bs))
-			c.x.Write(extraC)
+			c06write(m, c.x, extraC)
 			c.msg = append(append([]byte{}, msg...), extraC...)
 			if r.IntN(2) == 0 {
 				extraO := mon.Bytes(r, 1+r.IntN(2*a.bs))
-				orig.x.Write(extraO)
+				c06write(m, orig.x, extraO)
 				orig.msg = append(append([]byte{}, msg...), extraO...)
 			}
 			readers = append(readers, c)
@@ -439,6 +469,9 @@ func TestC06(t *testing.T) {
 	m.Gate("clones_in_write_mode", q(600, 12000), "Clone before the first Read, both then absorb different tails")
 	m.Gate("clones_in_read_mode", q(800, 19200), "Clone at a read position, original and clone driven with different chunkings")
 	m.Gate("write_after_read_panics", q(6000, 120000), "documented panic of Write after Read observed")
+	m.Gate("write_operands_scribbled", q(6000, 120000), "every Write goes through one reused buffer that is overwritten with 0xA5 right after Write returns")
+	m.Gate("keys_scribbled_after_constructor", q(3000, 60000), "caller's key slice overwritten after NewXOF returned (and again after Reset)")
+	m.Gate("retained_read_buffers_verified", q(100000, 2000000), "re-verification of the last 8 filled Read buffers after later Reads/Clones/Resets on the same and other XOFs")
 	m.Gate("resets_checked", q(1200, 24000), "Reset, second message, output compared from position 0")
 }
 
@@ -446,12 +479,13 @@ func TestC06(t *testing.T) {
 func (h *c06hist) reset(rd *c06reader, r *rand.Rand) {
 	a := h.a
 	rd.x.Reset()
+	scribble(h.keyArg)
 	rd.trace = append(rd.trace, "Reset()")
 	msg2 := mon.Bytes(r, r.IntN(2*a.bs+2))
 	pv, stack := mon.Panics(func() {
 		half := len(msg2) / 2
-		rd.x.Write(msg2[:half])
-		rd.x.Write(msg2[half:])
+		c06write(h.m, rd.x, msg2[:half])
+		c06write(h.m, rd.x, msg2[half:])
 	})
 	if pv != nil {
 		h.m.Violation("xof-write-after-reset-panics:"+a.name, h.witness(rd, map[string]any{"panic": fmt.Sprint(pv), "site": mon.PanicSite(stack)}))
